@@ -151,33 +151,44 @@ def _cont(cid, k, subs, name=None, default=None, policy="subset", minreq=False):
 class C08(Property):
     id = "C08"
     title = "The element tree stays a tree: parent, children, root and path agree"
-    proof_module = "Proofs.C08Step"
+    proof_module = "Proofs.C08All"
     theorems = [
+        "Flatland.C08.Proofs.c08_full",
+        "Flatland.C08.Proofs.inv_init",
         "Flatland.C08.Proofs.treeinv_of_wp",
+        "Flatland.C08.Proofs.navinv_of_wp",
         "Flatland.C08.Proofs.stepAt_wp",
-        "Flatland.C08.Proofs.hstep_wp",
         "Flatland.C08.Proofs.hrun_treeinv",
-        "Flatland.C08.Proofs.seqStep_wp",
-        "Flatland.C08.Proofs.good_seq",
-        "Flatland.C08.Proofs.c08_histories_partial",
+        "Flatland.C08.Proofs.seqStep_wp_all",
+        "Flatland.C08.Proofs.mapStep_wp",
+        "Flatland.C08.Proofs.setNode_wp",
+        "Flatland.C08.Proofs.setDefault_wp",
+        "Flatland.C08.Proofs.fromDefaults_wp",
     ]
     level_text = "proof (partial)"
-    level_note = ("treeinv_of_wp: the local stored-parent invariant implies the global parent-chain clause for every "
-                  "node; stepAt_wp/hrun_treeinv: frame rule — a call anywhere in the tree preserves the invariant of "
-                  "the whole tree if it does so for its target; seqStep_wp/c08_histories_partial: node-level "
-                  "preservation for every list-protocol call that reorders, removes, searches or places Element "
-                  "arguments, on any element of a tree of any depth. Calls that build new containers inside the call "
-                  "(plain values wrapped by container member schemas, set, set_default, the mapping calls) and the "
-                  "all_children / uniqueness-of-ids clauses rest on correspondence + the Python oracle; the full "
-                  "statement is kept as Flatland.C08.Spec.C08_Full (believed true, not proved)")
+    level_note = ("THEOREM: c08_full — from a well-parented tree, after any history of the model's list-protocol calls "
+                  "(plain values wrapped by any member schema, Element arguments, set, set_default, *=, clear, sort, "
+                  "slices ...) and dict-protocol calls (item assignment, update/|= incl. Element values, del, pop, clear, "
+                  "setdefault, set under every policy, set_default) on any elements of a tree of any depth, every node's "
+                  "stored parent chain is exactly its holders up to the root; inv_init — every construction route of the "
+                  "model (schema(), schema(value), from_defaults, set, set_default) yields such a tree; navinv_of_wp — "
+                  "parents/root/path of the navigation API are what the shape says, for every walk bound >= depth, under "
+                  "UniqueIds (a hypothesis, NOT proved preserved). ORACLE ONLY (no theorem): all_children lists every "
+                  "reachable element once, breadth-first; removed => unreachable; placed => child; uniqueness of "
+                  "identities; set_flat/from_flat/from_object routes; model paths answering `unsupported`. Aliasing "
+                  "(`l.append(l[0])`: an argument that is already in the tree) is outside the quantifier: the model "
+                  "hands arguments over as values, so the theorem says nothing about such histories, and the generator "
+                  "does not produce them")
     technique = "invariant + frame-rule proof (Lean 4) + differential testing with identity labels against the implementation"
     trusted_base = [
         "Python object identity and attribute stores modelled as nodes with unique ids and a stored parent id",
         "CPython list/dict semantics as in lean/Flatland/PyList.lean (shared with C09/C10)",
     ]
     assumptions = [
-        "Element arguments are fresh or detached elements (an Element handed to two containers is aliasing that no "
-        "tree can represent); stated as the FreshArgs hypothesis of the step theorem",
+        "Element arguments are fresh or detached elements; an Element that is already in the tree handed in again "
+        "(`l.append(l[0])`) is aliasing that no tree can represent and is outside the quantifier. The Lean theorem "
+        "only asks arguments to be internally well-parented (`ArgWP`); it is silent — not false, but meaningless — on "
+        "aliasing histories, because the model copies nodes; uniqueness of ids is a hypothesis of navinv_of_wp only",
         "set_flat / from_flat / from_object construction routes are checked by the Python oracle only (no Lean model "
         "of the flat-key parser here; it belongs to C01/C02)",
         "sort keys range over {u, len(u)}",
@@ -186,7 +197,9 @@ class C08(Property):
             "construction route (constructor, constructor with value, set, set_default, from_defaults; set_flat/"
             "from_flat oracle-only) followed by 1-20 container calls, each aimed at the t-th reachable container "
             "(sequence op or mapping op according to its kind), with plain values, fresh Elements and Elements "
-            "detached by earlier calls; non-trivial = the tree has at least 4 elements at some point and at least 3 "
+            "detached by earlier calls or owned by another container; cases the Lean model does not cover (flat routes, "
+            "model paths answering unsupported) are marked oracle-only before the run and are not counted as validated "
+            "traces (tag model=oracle-only); non-trivial = the tree has at least 4 elements at some point and at least 3 "
             "calls changed it")
     quick_n = 30000
     thorough_n = 250000
@@ -229,6 +242,9 @@ class C08(Property):
         return not case.get("nomodel")
 
     def generate(self, rng, n, tier):
+        yield from G.mark_unmodelled(self, list(self._generate(rng, n, tier)))
+
+    def _generate(self, rng, n, tier):
         for _ in range(n):
             cid = G.Counter()
             depth = rng.choice([1, 2, 2, 3, 3])
@@ -255,17 +271,20 @@ class C08(Property):
             maps = [s for s in conts if s["k"] in G.MAP_KINDS]
             nops = rng.choice([1, 2, 3, 5, 8, 12, 16, 20])
             ops = []
+            flat = bool(case.get("nomodel")) or rng.random() < 0.04
             for _ in range(nops):
                 o = {"t": rng.randint(0, 7)}
                 # the executor picks the op matching the target's kind; the arguments are shaped for one of the
                 # schema's sequences / mappings (the same one is often hit because trees are small)
                 if seqs:
                     sq = rng.choice(seqs)
-                    o["s"] = G.gen_seq_op(rng, sq["subs"][0], valid=not hostile)
+                    o["s"] = G.gen_seq_op(rng, sq["subs"][0], valid=not hostile, seq=sq if flat else None)
                 if maps:
-                    o["m"] = G.gen_map_op(rng, rng.choice(maps), valid=not hostile)
+                    o["m"] = G.gen_map_op(rng, rng.choice(maps), valid=not hostile, flat=flat)
                 ops.append(o)
             case["ops"] = ops
+            if G.has_flat(case):
+                case["nomodel"] = True
             yield case
 
     def _run(self, case):
@@ -300,7 +319,7 @@ class C08(Property):
     def tags(self, case, obs):
         if any("view_raises" in st["view"] for st in obs["steps"]):
             return ["view-raises"]
-        t = ["root=" + case["schema"]["k"], "route=" + case["init"]["route"], "ops=%d" % min(20, len(case["ops"]))]
+        t = ["model=" + ("oracle-only" if case.get("nomodel") else "compared"), "root=" + case["schema"]["k"], "route=" + case["init"]["route"], "ops=%d" % min(20, len(case["ops"]))]
         steps = obs["steps"]
         t.append("maxsize=%d" % min(30, max(len(s["view"]["els"]) for s in steps)))
         t.append("maxdepth=%d" % max(len(r[1]) for s in steps for r in s["view"]["els"]))
